@@ -122,11 +122,11 @@ func c17Ops() []c17Op {
 			m.dsamples[lbl("hd", map[string]string{})] = append(m.dsamples[lbl("hd", map[string]string{})], d)
 		}})
 	}
-	// names and tag keys that concatenate to the same string with '_' (legal: no name is reused)
+	// names and tag keys that concatenate to the same string with '_' or with nothing in between (legal: no name is reused)
 	for _, nt := range []struct {
 		name string
 		tags map[string]string
-	}{{"r_host", map[string]string{"zone": "1"}}, {"r", map[string]string{"host": "1", "zone": "1"}}, {"b_dir", map[string]string{}}, {"b", map[string]string{"dir": "1"}}} {
+	}{{"r_host", map[string]string{"zone": "1"}}, {"r", map[string]string{"host": "1", "zone": "1"}}, {"b_dir", map[string]string{}}, {"b", map[string]string{"dir": "1"}}, {"bdir", map[string]string{}}} {
 		nt := nt
 		ops = append(ops, c17Op{fmt.Sprintf("%s%s inc 1", nt.name, tagString(nt.tags)), func(r tally.Scope, m *c17Model) {
 			r.Tagged(nt.tags).Counter(nt.name).Inc(1)
@@ -439,11 +439,45 @@ func c17ConflictJob(tier string) *SeqJob {
 		if len(cbErrs) < expected {
 			return "rejected-registration-not-reported", fmt.Sprintf("%v (timer type %d): %d registrations clash with the first use of the name, the error callback was invoked %d times", histLabels(alphabet, hist), int(tt), expected, len(cbErrs)), steps
 		}
-		// everything is still usable afterwards
+		// everything is still usable afterwards: the owner of the name is still exposed with what was recorded through
+		// it, and a further series of the owner's family (same kind, same label names, a new label value) is accepted
+		// without a word to the callback and exposed as well
+		owner := uses[hist[0]]
+		ownerUses := 0
+		for _, op := range hist {
+			if uses[op].kind == owner.kind && tagString(uses[op].tags) == tagString(owner.tags) {
+				ownerUses++
+			}
+		}
+		var fresh map[string]string
+		if len(owner.tags) > 0 {
+			fresh = map[string]string{}
+			for k := range owner.tags {
+				fresh[k] = "9"
+			}
+		}
+		ncb := len(cbErrs)
+		var fams []*dto.MetricFamily
 		res := func() (r interface{}) {
 			defer func() { r = recover() }()
+			if fresh != nil {
+				s := root.Tagged(fresh)
+				switch owner.kind {
+				case "counter":
+					s.Counter("x").Inc(1)
+				case "gauge":
+					s.Gauge("x").Update(1)
+				case "timer":
+					s.Timer("x").Record(time.Second)
+				case "vhist":
+					s.Histogram("x", tally.ValueBuckets{1, 2}).RecordValue(1.5)
+				case "dhist":
+					s.Histogram("x", tally.DurationBuckets{time.Second}).RecordDuration(time.Second)
+				}
+			}
 			tally.VerifReportOnce(root)
-			_, err := reg.Gather()
+			var err error
+			fams, err = reg.Gather()
 			if err != nil {
 				return err
 			}
@@ -451,6 +485,50 @@ func c17ConflictJob(tier string) *SeqJob {
 		}()
 		if res != nil {
 			return "unusable-after-conflict", fmt.Sprintf("%v: %v", histLabels(alphabet, hist), res), steps
+		}
+		if len(cbErrs) != ncb {
+			return "accepted-registration-reported-as-error", fmt.Sprintf("%v (timer type %d): a new series %s of the family that owns the name was handed to the error callback: %v", histLabels(alphabet, hist), int(tt), tagString(fresh), cbErrs[ncb:]), steps
+		}
+		count := func(want map[string]string) (float64, bool) {
+			for _, f := range fams {
+				if f.GetName() != "x" {
+					continue
+				}
+				for _, mt := range f.Metric {
+					if tagString(labelsOf(mt)) != tagString(want) {
+						continue
+					}
+					switch {
+					case mt.Counter != nil:
+						return mt.Counter.GetValue(), true
+					case mt.Gauge != nil:
+						return mt.Gauge.GetValue(), true
+					case mt.Summary != nil:
+						return float64(mt.Summary.GetSampleCount()), true
+					case mt.Histogram != nil:
+						return float64(mt.Histogram.GetSampleCount()), true
+					}
+				}
+			}
+			return 0, false
+		}
+		wantOwner := float64(ownerUses)
+		if owner.kind == "gauge" {
+			wantOwner = 1
+		}
+		ot := owner.tags
+		if ot == nil {
+			ot = map[string]string{}
+		}
+		// (value agreement is not claimed where one name is used for two kinds: another kind of the same Prometheus family
+		// and label names lands in the owner's vector. The owner must still be there, with at least its own.)
+		if got, ok := count(ot); !ok || got < wantOwner {
+			return "owner-of-the-name-no-longer-exposed", fmt.Sprintf("%v (timer type %d, callback panics: %v): the first use (%s %s, used %d times) is exposed=%v with %v, want %v", histLabels(alphabet, hist), int(tt), panicking, owner.kind, tagString(ot), ownerUses, ok, got, wantOwner), steps
+		}
+		if fresh != nil {
+			if got, ok := count(fresh); !ok || got < 1 {
+				return "new-series-of-the-owning-family-not-exposed", fmt.Sprintf("%v (timer type %d, callback panics: %v): %s %s recorded once after the conflicts: exposed=%v with %v", histLabels(alphabet, hist), int(tt), panicking, owner.kind, tagString(fresh), ok, got), steps
+			}
 		}
 		return "", "", steps
 	}
